@@ -329,6 +329,9 @@ def shared_serde(res, st, rng, tier):
                 res.case(case)
 
 
+FAILED = object()      # rt() below: the round trip itself failed (and was reported)
+
+
 def graphs_and_histories(res, st, rng, tier):
     """values the generic comparison cannot walk (reference cycles), pickles far above any internal buffer size, and a class
     whose module-level name is re-bound between two round trips"""
@@ -348,20 +351,20 @@ def graphs_and_histories(res, st, rng, tier):
             form, flags = sd.serialize("key", v)
         except Broken:
             res.violation("untransmittable-form:%s" % label.split("(")[0], "%s: %s for a %s" % (label, st["last"], case[1]), case)
-            return None
+            return FAILED
         except Exception as e:
             res.violation("serialize-raises:%s:%s:%s" % (label.split("(")[0], case[1], type(e).__name__),
                           "%s.serialize(<%s>) raised %r" % (label, case[1], e), case)
-            return None
+            return FAILED
         if not isinstance(form, (bytes, str)):
             res.violation("untransmittable-form:%s" % label.split("(")[0], "%s: serialized form of a %s is %s" % (label, case[1], type(form).__name__), case)
-            return None
+            return FAILED
         try:
             back = sd.deserialize("key", wire(form), flags)
         except Exception as e:
             res.violation("deserialize-raises:%s:%s:%s" % (label.split("(")[0], case[1], type(e).__name__),
                           "%s.deserialize raised %r for a %s" % (label, e, case[1]), case)
-            return None
+            return FAILED
         res.count("round_trips")
         return back
 
@@ -370,35 +373,60 @@ def graphs_and_histories(res, st, rng, tier):
         lst = [1, "two"]
         lst.append(lst)
         back = rt(label, sd, lst, ("graph", "list-containing-itself", label))
-        if back is not None and not (type(back) is list and len(back) == 3 and back[:2] == [1, "two"] and back[2] is back):
+        if back is not FAILED and not (type(back) is list and len(back) == 3 and back[:2] == [1, "two"] and back[2] is back):
             res.violation("value-changed:%s:cyclic-list" % label.split("(")[0], "%s: a list containing itself came back as %r" % (label, type(back)), ("graph", "list", label))
         dct = {"name": "d"}
         dct["self"] = dct
         back = rt(label, sd, dct, ("graph", "dict-containing-itself", label))
-        if back is not None and not (type(back) is dict and set(back) == {"name", "self"} and back["self"] is back):
+        if back is not FAILED and not (type(back) is dict and set(back) == {"name", "self"} and back["self"] is back):
             res.violation("value-changed:%s:cyclic-dict" % label.split("(")[0], "%s: a dict containing itself came back wrong" % label, ("graph", "dict", label))
         root = valuegen.TreeNode("root")
         kids = [valuegen.TreeNode("kid%d" % i, root) for i in range(3)]
         valuegen.TreeNode("grandchild", kids[1])
         back = rt(label, sd, root, ("graph", "parent-linked-tree", label))
-        if back is not None and not (type(back) is valuegen.TreeNode and [c.name for c in back.children] == ["kid0", "kid1", "kid2"]
+        if back is not FAILED and not (type(back) is valuegen.TreeNode and [c.name for c in back.children] == ["kid0", "kid1", "kid2"]
                                      and all(c.parent is back for c in back.children)
                                      and back.children[1].children[0].parent is back.children[1]):
             res.violation("value-changed:%s:parent-linked-tree" % label.split("(")[0], "%s: tree came back with broken links" % label, ("graph", "tree", label))
         shared_leaf = ["leaf"]
         both = [shared_leaf, shared_leaf]
         back = rt(label, sd, both, ("graph", "shared-substructure", label))
-        if back is not None and not (back == both and back[0] is back[1]):
+        if back is not FAILED and not (back == both and back[0] is back[1]):
             res.violation("value-changed:%s:shared-substructure" % label.split("(")[0], "%s: two references to one list came back as %r" % (label, back), ("graph", "shared", label))
         res.count("object_graphs_with_cycles", 4)
         res.case(("graph", label))
+    # 1b. values whose pickles name classes of the standard library (what os / socket / datetime / decimal ... hand out)
+    import collections, datetime, decimal, enum, fractions, os, pathlib, socket, uuid
+    Pt = collections.namedtuple("Pt", "x y")
+    Pt.__module__ = valuegen.__name__
+    Pt.__qualname__ = "Pt"
+    setattr(valuegen, "Pt", Pt)
+    std_values = [("os.stat_result", os.stat(".")), ("os.terminal_size", os.terminal_size((80, 24))), ("socket.AddressFamily", socket.AF_INET),
+                  ("getaddrinfo-style tuple", [(socket.AF_INET, socket.SOCK_STREAM, 6, "", ("10.0.0.1", 11211))]),
+                  ("datetime", datetime.datetime(2024, 2, 29, 12, 30, tzinfo=datetime.timezone.utc)), ("timedelta", datetime.timedelta(days=-1, seconds=5)),
+                  ("Decimal", decimal.Decimal("-1.50")), ("Fraction", fractions.Fraction(-3, 7)), ("UUID", uuid.UUID(int=0x1234)),
+                  ("PurePosixPath", pathlib.PurePosixPath("/var/cache/x")), ("OrderedDict", collections.OrderedDict(b=1, a=2)),
+                  ("deque", collections.deque([1, 2], maxlen=5)), ("Counter", collections.Counter("abca")), ("namedtuple", Pt(1, -2)),
+                  ("range", range(3, 30, 4)), ("complex", complex(-0.0, 2.5)), ("bytearray", bytearray(b"\x00ab")), ("slice", slice(1, None, 2)),
+                  ("builtin function", len), ("bound method of a str", "abc".upper), ("type object", OSError), ("sys.flags-like struct", os.times())]
+    for label, sd in serdes[::2] + serdes[-3:] if tier == "quick" else serdes:
+        for name, v in std_values:
+            back = rt(label, sd, v, ("stdlib", name, label))
+            if back is FAILED:
+                continue
+            same_ = (back == v) if name not in ("bound method of a str",) else (back() == v())
+            if not (same_ and type(back) is type(v)):
+                res.violation("value-changed:%s:stdlib-value" % label.split("(")[0], "%s: %s %r came back as %r (%s)" % (label, name, v, back, type(back).__name__),
+                              ("stdlib", name, label))
+            res.count("standard_library_values")
+        res.case(("stdlib", label))
     # 2. pickles far above any internal buffer size (128 KiB, 1 MiB), incompressible and compressible
     bigs = [("list-with-150000-random-bytes", [rng.randbytes(150000), 7]), ("dict-of-3000-random-strings", {i: rng.randbytes(48).hex() for i in range(3000)}),
             ("tuple-with-1.5MiB-random-bytes", (rng.randbytes(1500000),)), ("list-of-40000-ints", list(range(40000)))]
     for label, sd in serdes[::3] + serdes[-3:] if tier == "quick" else serdes:
         for name, v in bigs:
             back = rt(label, sd, v, ("big", name, label))
-            if back is not None and not (back == v and type(back) is type(v)):
+            if back is not FAILED and not (back == v and type(back) is type(v)):
                 res.violation("value-changed:%s:big-pickle" % label.split("(")[0], "%s: %s came back changed" % (label, name), ("big", name, label))
             res.count("big_pickles")
         res.case(("big", label))
@@ -406,11 +434,11 @@ def graphs_and_histories(res, st, rng, tier):
     for label, sd in serdes:
         cls1 = valuegen.Rebindable
         b1 = rt(label, sd, cls1(1), ("rebind", "instance-before-rebinding", label))
-        if b1 is not None and type(b1) is not cls1:
+        if b1 is not FAILED and type(b1) is not cls1:
             res.violation("type-changed:%s:Rebindable" % label.split("(")[0], "%s: instance came back as %r" % (label, type(b1)), ("rebind", 1, label))
         cls2 = valuegen.rebind_rebindable()
         b2 = rt(label, sd, cls2(2), ("rebind", "instance-of-the-newly-bound-class", label))
-        if b2 is not None and (type(b2) is not cls2 or b2 != cls2(2)):
+        if b2 is not FAILED and (type(b2) is not cls2 or b2 != cls2(2)):
             res.violation("type-changed:%s:class-rebound-between-round-trips" % label.split("(")[0],
                           "%s: after %s.Rebindable was bound to a new class object (generation %d), an instance of it came back as "
                           "an instance of generation %r" % (label, valuegen.__name__, cls2.generation, getattr(type(b2), "generation", "?")),
@@ -470,7 +498,7 @@ def replay(case):
         check_compressed(res, st, case[4], case[1], case[2], case[3], case)
     elif kind == "shared":
         shared_serde(res, st, random.Random(0), "quick")
-    elif kind in ("graph", "big", "rebind"):
+    elif kind in ("graph", "big", "rebind", "stdlib"):
         graphs_and_histories(res, st, random.Random(0), "quick")
     res.case(case)
     for c in REQUIRED_COUNTERS:
